@@ -104,8 +104,16 @@ def step_state(check: Check) -> None:
                  "height", "name", "values"}
     unknown = sorted(k for k in written if k not in EXPECTED_STEP_STATE and k not in transient)
     # attributes in `transient` are only written by loaders reachable through over-approximated edges (update_reference/load)
-    if unknown:
-        raise AnalysisError(f"new state written on the processing path: {[(k, written[k][:2]) for k in unknown]}; the history rule H5 must be extended")
+    for k in unknown:
+        # state that no rule accounts for: written while processing, it survives the step (a cache, a memo, a counter) and makes the
+        # next step depend on this one unless every input it was computed from invalidates it - which nothing here establishes
+        site = written[k][0]
+        qual, line = site.rsplit(":", 1)
+        f_ = cg._fn.get(qual)
+        check.violation("H5", f"{qual}/{k}",
+                        f"`{k}` is written while processing ({', '.join(written[k][:3])}) and kept on the object: state that outlives the step "
+                        "(a cache or memo) makes later results depend on earlier ones - nothing resets it at the start of a step, on restart, or "
+                        "when the values it was computed from change", f"{f_.file}:{line}" if f_ is not None else site)
     check.ok("H5", "Engine.process/step-state", f"state written by a processing step: {sorted(k for k in written if k in EXPECTED_STEP_STATE)}",
              "fuzzylite/engine.py", {"written": {k: v[:3] for k, v in written.items() if k in EXPECTED_STEP_STATE}})
     # (2) reads of Variable.value on the process path
@@ -234,7 +242,8 @@ def restart(check: Check) -> None:
         if calls_ and not early_exits(rr.cfg, h) and not any(gn in body for n in calls_ for _, _, gn in rr.cfg.must_guards(n)):
             un.append(h)
     ld = [(n, rr.term(c, n)) for n, c in rr.cfg.find_calls(".load_rules")]
-    ok = bool(un) and bool(ld) and rr.cfg.must_precede(un, ld[0][0]) and ld[0][1][2] == (("param", rl.params[1].name),)
+    ok = bool(un) and bool(ld) and rr.cfg.must_precede(un, ld[0][0]) and ld[0][1][2] == (("param", rl.params[1].name),) and \
+        not rr.cfg.must_guards(ld[0][0]) and not any(rr.cfg.must_guards(n_) for n_ in un)
     check.require(ok, "H2", "RuleBlock.reload_rules/sequence", "reload = unload all rules, then load them against the given engine", loc(rl))
     for qual, coll, meth in (("RuleBlock.unload_rules", "rules", "unload"), ("RuleBlock.load_rules", "rules", "load")):
         f = p.func(qual)
